@@ -23,6 +23,7 @@ Inductive cmd :=
 | CMerge (dst a b : nat)
 | CWrite (o : nat)
 | CDump (o : nat)
+| CGetAll (o : nat)
 | CPath (o : nat)
 | CTags (o : nat)
 | CSetTags (o : nat) (d c : byte)
@@ -33,13 +34,14 @@ Inductive out :=
 | OStr (e : econf_err) (v : option str)
 | OInt (e : econf_err) (z : Z)
 | OBool (e : econf_err) (b : bool)
-| OText (e : econf_err) (v : option str)      (* float/double getters: the stored text, for the oracle *)
+| OText (dbl : bool) (e : econf_err) (v : option str)   (* float/double getters: the stored text, for the oracle *)
 | OList (e : econf_err) (l : list str)
 | OExt (e : econf_err) (x : extval)
 | OBytes (e : econf_err) (b : str)
 | ODump (kf : keyfile)
 | OTags (d c : byte)
 | OParse (e : econf_err) (line : N)
+| OAll (l : list out)
 | ONoObj.
 
 Definition store := list (nat * keyfile).
@@ -83,11 +85,11 @@ Definition kstep_get (kf : keyfile) (kd : vkind) (g k : option str) (def : defva
       end
   | KFloat | KDouble =>
       match lookup kf g k with
-      | inr e => match e_value e with
-                 | None => ORc ECONF_KEY_HAS_NULL_VALUE
-                 | Some t => OText ECONF_SUCCESS (Some t)
+      | inr e => match get_float_text (e_value e) with
+                 | inl err => ORc err
+                 | inr t => OText (match kd with KDouble => true | _ => false end) ECONF_SUCCESS (Some t)
                  end
-      | inl ECONF_NOKEY => match def with DStr d => OText ECONF_NOKEY d | _ => ORc ECONF_NOKEY end
+      | inl ECONF_NOKEY => ORc ECONF_NOKEY
       | inl e => ORc e
       end
   | _ =>
@@ -104,6 +106,24 @@ Definition kstep_get (kf : keyfile) (kd : vkind) (g k : option str) (def : defva
       end
   end.
 
+Definition all_kinds : list vkind :=
+  [KString; KInt; KInt64; KUInt; KUInt64; KBool; KFloat; KDouble].
+
+(* every listing and every getter on every listed key *)
+Definition all_queries (kf : keyfile) : list out :=
+  let glist := match get_groups kf with inr l => l | inl _ => [] end in
+  let groups := None :: map Some glist in
+  (match get_groups kf with inr l => OList ECONF_SUCCESS l | inl e => ORc e end) ::
+  flat_map (fun g =>
+    match get_keys kf g with
+    | inl e => [ORc e]
+    | inr ks =>
+        OList ECONF_SUCCESS ks ::
+        flat_map (fun k =>
+          map (fun kd => kstep_get kf kd g (Some k) DNone) all_kinds ++
+          [match get_ext kf g (Some k) with inr x => OExt ECONF_SUCCESS x | inl e => ORc e end]) ks
+    end) groups.
+
 (* one API call on one object: new object state and what the caller sees.
    Getters thread the object through as well. *)
 Definition kstep (kf : keyfile) (c : cmd) : keyfile * out :=
@@ -119,6 +139,7 @@ Definition kstep (kf : keyfile) (c : cmd) : keyfile * out :=
       (kf, match get_keys kf g with inr l => OList ECONF_SUCCESS l | inl e => ORc e end)
   | CWrite _ => (kf, OBytes ECONF_SUCCESS (write_model kf))
   | CDump _ => (kf, ODump kf)
+  | CGetAll _ => (kf, OAll (all_queries kf))
   | CPath _ => (kf, OStr ECONF_SUCCESS (Some (get_path kf)))
   | CTags _ => (kf, OTags (kf_delim kf) (kf_comment kf))
   | CSetTags _ d c' => (set_tags kf d c', ORc ECONF_SUCCESS)
@@ -148,7 +169,7 @@ Definition step (s : store) (c : cmd) : store * out :=
       end
   | CFree o => (sdel s o, ORc ECONF_SUCCESS)
   | CSet o _ _ _ _ _ | CGet o _ _ _ _ | CGetExt o _ _ | CGroups o | CKeys o _
-  | CWrite o | CDump o | CPath o | CTags o | CSetTags o _ _ =>
+  | CWrite o | CDump o | CGetAll o | CPath o | CTags o | CSetTags o _ _ =>
       match sget s o with
       | Some kf => let '(kf', r) := kstep kf c in (sput s o kf', r)
       | None =>
